@@ -1,74 +1,104 @@
-(* C03 -- Step commands land where their definition says: headline theorems *)
+(* C03 -- Step commands land where their definition says: headline theorems
+   (model of /repo after commits c5c41d3 and c0ceee6) *)
 From BS Require Import Model.Base.
 From W Require Import ModelStep ProofsStep.
 Open Scope N_scope.
 
-Theorem C03_stepi_partial : forall tr fuel i,
-  stepi_hyp tr i -> stepi tr (S fuel) i = Ok (S i, WDone).
+(* ---- stepi ---- *)
+Theorem C03_stepi_partial : forall tr ec fuel i,
+  stepi_hyp tr i -> stepi tr ec (S fuel) i = Ok (S i, WDone).
 Proof. exact ProofsStep.C03_stepi_partial. Qed.
 
 Theorem C03_stepi_refuted :
-  exists (t : trace) (i : nat), (forall j, t j <> None) /\ forall fuel, stepi t fuel i = OutOfFuel.
+  exists (t : trace) (i : nat), (forall j, t j <> None) /\ forall ec fuel, stepi t ec fuel i = OutOfFuel.
 Proof. exact ProofsStep.C03_stepi_refuted. Qed.
 
-Theorem C03_step_in : forall tr rows funcs units oc fuel i p rw0 s,
+Theorem C03_step_selfjump_refuted :
+  forall ec fuel, step_in spin [] [] [] false ec fuel O = OutOfFuel.
+Proof. exact ProofsStep.C03_step_selfjump_refuted. Qed.
+
+(* the step that ends the process: the real exit status, never a panic *)
+Theorem C03_stepi_exit : forall tr ec fuel i p,
+  tr i = Some p -> tr (S i) = None -> stepi tr ec (S fuel) i = Err (E_EXIT_CODE ec).
+Proof. exact ProofsStep.C03_stepi_exit. Qed.
+
+Theorem C03_stepi_never_panics : forall tr ec fuel i s, stepi tr ec fuel i <> Panic s.
+Proof. exact ProofsStep.C03_stepi_never_panics. Qed.
+
+Theorem C03_step_in_exit : forall tr rows funcs units oc ec fuel i p rw0,
+  tr i = Some p -> find_place rows units (pc p) = Some rw0 -> tr (S i) = None ->
+  step_in tr rows funcs units oc ec (S fuel) i = Err (E_EXIT_CODE ec).
+Proof. exact ProofsStep.C03_step_in_exit. Qed.
+
+(* ---- step ---- *)
+Theorem C03_step_in : forall tr rows funcs units oc ec fuel i p rw0 s,
   tr i = Some p -> find_place rows units (pc p) = Some rw0 ->
-  step_in tr rows funcs units oc fuel i = Ok (s, WDone) ->
+  step_in tr rows funcs units oc ec fuel i = Ok (s, WDone) ->
   (i < s)%nat /\
   (exists q rw, tr s = Some q /\ stmt_at rows (pc q) rw /\
                 (cfa q <> cfa p \/ r_file rw <> r_file rw0 \/ r_line rw <> r_line rw0)) /\
   (forall k, (i < k < s)%nat -> ~ candidate tr rows funcs units (r_file rw0) (r_line rw0) (cfa p) k).
 Proof. exact ProofsStep.C03_step_in. Qed.
 
-Theorem C03_finish_partial : forall tr fuel i R r users s,
-  finish_hyp tr i R r -> memN r users = false ->
+(* ---- finish: no hypothesis about recursion left ---- *)
+Theorem C03_finish : forall tr fuel i p R r users s,
+  tr i = Some p -> finish_pre tr i R r -> memN r users = false ->
   step_out tr fuel (Some r) users i = Ok (s, WDone) -> s = R.
-Proof. exact ProofsStep.C03_finish_partial. Qed.
+Proof. exact ProofsStep.C03_finish. Qed.
 
-Theorem C03_finish_refuted :
-  exists l i r s,
-    step_out (trace_of_list l) 100 (Some r) [] i = Ok (s, WDone) /\
-    return_point (trace_of_list l) i 17 /\ s <> 17%nat /\
-    (exists p q, nth_error l i = Some p /\ nth_error l s = Some q /\ cfa q = cfa p).
-Proof. exact ProofsStep.C03_finish_refuted. Qed.
+Theorem C03_finish_complete : forall tr fuel i p R r users,
+  tr i = Some p -> finish_pre tr i R r -> memN r users = false ->
+  (forall k, (i < k <= R)%nat -> exists q, tr k = Some q /\ sig q = 0) ->
+  (R - i <= fuel)%nat ->
+  step_out tr fuel (Some r) users i = Ok (R, WDone).
+Proof. exact ProofsStep.C03_finish_complete. Qed.
 
-Theorem C03_next_partial : forall tr rows funcs units fuel i p fn ra users s,
-  tr i = Some p -> find_func funcs units (pc p) = Some fn ->
+Theorem C03_finish_never_panics : forall tr fuel ra users i s, step_out tr fuel ra users i <> Panic s.
+Proof. exact ProofsStep.C03_finish_never_panics. Qed.
+
+(* ---- next: no hypothesis about recursion left ---- *)
+Theorem C03_next : forall tr rows fuel i p fn ra users s,
+  tr i = Some p ->
   next_temps rows fn ra users <> [] ->
-  next_hyp tr i (cfa p) (next_temps rows fn ra users) ->
   next_run tr rows fuel ra users fn i p = Ok (s, WBreakpoint) ->
   (i < s)%nat /\
   (exists q, tr s = Some q /\ cfa p <= cfa q /\ memN (pc q) (next_temps rows fn ra users) = true) /\
   (forall k q, (i < k < s)%nat -> tr k = Some q -> arrive tr k ->
-               memN (pc q) (next_temps rows fn ra users) = false).
-Proof. exact ProofsStep.C03_next_partial. Qed.
+               memN (pc q) (next_temps rows fn ra users) = true -> cfa q < cfa p).
+Proof. exact ProofsStep.C03_next. Qed.
 
-Theorem C03_next_refuted :
-  exists l i s p q,
-    step_over (trace_of_list l) R_rows R_funcs R_units false 100 (Some 0x2010) [] i = Ok (s, WDone) /\
-    nth_error l i = Some p /\ nth_error l s = Some q /\ cfa q < cfa p /\
-    ~ not_in_callee (trace_of_list l) i (s, WDone).
-Proof. exact ProofsStep.C03_next_refuted. Qed.
+Theorem C03_next_not_in_callee : forall tr rows funcs units oc ec fuel i p fn ra users s,
+  tr i = Some p -> find_func funcs units (pc p) = Some fn -> rows <> [] ->
+  next_temps rows fn ra users <> [] ->
+  step_over tr rows funcs units oc ec (S fuel) ra users i = Ok (s, WDone) ->
+  not_in_callee tr i (s, WDone) \/
+  (exists s' q r, tr s' = Some q /\ ra = Some r /\ pc q = r /\ cfa p <= cfa q /\
+                  (i < s')%nat /\ step_in tr rows funcs units oc ec (S fuel) s' = Ok (s, WDone)).
+Proof. exact ProofsStep.C03_next_not_in_callee. Qed.
 
+(* still false of the code: a user breakpoint on the next line makes `next` skip that line *)
 Theorem C03_next_userbp_refuted :
   exists l users i s,
-    step_over (trace_of_list l) U_rows [U_g] [(0x3000, 0x3100)] false 100 (Some 0x2010) users i = Ok (s, WDone) /\
+    step_over (trace_of_list l) U_rows [U_g] [(0x3000, 0x3100)] false 0 100 (Some 0x2010) users i = Ok (s, WDone) /\
     (exists q rw, (i < 2 < s)%nat /\ nth_error l 2 = Some q /\ cfa q = 0x7000 /\
                   stmt_at U_rows (pc q) rw /\ r_line rw = 22 /\ arrive (trace_of_list l) 2) /\
     reported_place (trace_of_list l) U_rows [(0x3000, 0x3100)] s
       = Some {| r_addr := 0x3040; r_file := 1; r_line := 23; r_stmt := true |}.
 Proof. exact ProofsStep.C03_next_userbp_refuted. Qed.
 
-(* non-vacuity: the partial theorems apply to, and the model completes on, a concrete trace *)
+(* non-vacuity: the recursion witnesses of the old refutations are now positive *)
 Example C03_nonvacuous :
-  finish_hyp_b R_trace 10 13 0x1050 = true /\
-  step_out (trace_of_list R_trace) 100 (Some 0x1050) [] 10 = Ok (13%nat, WDone) /\
-  step_in (trace_of_list R_trace) R_rows R_funcs R_units false 100 3 = Ok (6%nat, WDone).
+  finish_pre_b R_trace 7 17 0x1050 = true /\
+  step_out (trace_of_list R_trace) 100 (Some 0x1050) [] 7 = Ok (17%nat, WDone) /\
+  step_over (trace_of_list R_trace) R_rows R_funcs R_units false 0 100 (Some 0x2010) [] 3 = Ok (18%nat, WDone) /\
+  step_in (trace_of_list R_trace) R_rows R_funcs R_units false 0 100 3 = Ok (6%nat, WDone).
 Proof. repeat split; vm_compute; reflexivity. Qed.
 
 Print Assumptions C03_stepi_refuted.
+Print Assumptions C03_stepi_exit.
 Print Assumptions C03_step_in.
-Print Assumptions C03_finish_partial.
-Print Assumptions C03_next_partial.
-Print Assumptions C03_next_refuted.
+Print Assumptions C03_finish.
+Print Assumptions C03_finish_complete.
+Print Assumptions C03_next.
+Print Assumptions C03_next_not_in_callee.
 Print Assumptions C03_next_userbp_refuted.
